@@ -393,7 +393,8 @@ REQUIRED_THEOREMS = ['CfVerif.C06.' + t for t in (
     'gen_variant_is_repaired', 'quiescent_lock_free', 'never_blocks', 'writes_once_in_order', 'writes_at_most_once',
     'write_notified_queued_or_superseded', 'reads_exactly_once', 'disconnect_leaves_no_record', 'state_stays_wellformed',
     'read_exact', 'read_requests_are_chunks', 'stale_reply_counterexample',
-    'write_exact', 'write_exact_single', 'unwritten_memory_unchanged',
+    'write_exact', 'write_exact_single', 'unwritten_memory_unchanged', 'packets_within_limits',
+    'read_reply_progress', 'write_ack_progress', 'd17_never_notified', 'd17_repaired', 'oob_write_raises',
     'd9_lock_left_held', 'd9_wedged')]
 TRUSTED = ['harness/corr/c06.py extractor + correspondence (fake `cf` object: add_port_callback, disconnected, send_packet '
            'with the size check of Crazyflie.send_packet; CheckedLock turns a blocking acquire of a held lock into `hang`)',
